@@ -229,6 +229,54 @@ var corruptions = []corruption{
 		m.Stamp = time.Now().Unix()
 		return RefWrite(set, m.PW, salt, m.Stamp) + "\n" + m.Aux, catValid
 	}},
+	{"buffer-boundary-record", func(w *World, u string, m *MUser, rec RefRecord, c string, r *Run) (string, corrCat) {
+		// a foreign agent writes a correct argon2id record whose first line ends exactly at a
+		// common buffer size (the schema bounds neither salt nor line length), is a little
+		// longer, or ends there with extra digest characters behind it (not a matching digest)
+		var sets []PSet
+		for _, s := range w.cfg.Sets {
+			if s.Algo != algoScrypt {
+				sets = append(sets, s)
+			}
+		}
+		if len(sets) == 0 {
+			return c, catValid
+		}
+		set := sets[r.Choose("bset", len(sets))]
+		size := []int{4096, 65536}[r.Choose("bsize", 2)]
+		variant := r.Choose("bvariant", 3)
+		pw := GenPassword(r)
+		dlen := 4 * ((int(set.Length) + 2) / 3)
+		idlen := len(fmt.Sprint(set.ID))
+		for sd := 7; sd <= 11; sd++ {
+			rem := size - (len("argon2id:") + sd + 1 + idlen + 1 + 1 + dlen)
+			if variant == 2 {
+				rem += 4 * (1 + r.Choose("bextra", 40))
+			}
+			if rem < 4 || rem%4 != 0 {
+				continue
+			}
+			salt := make([]byte, rem/4*3)
+			for i := range salt {
+				salt[i] = byte(i*7 + len(pw))
+			}
+			stamp := int64(1)
+			for i := 1; i < sd; i++ {
+				stamp *= 10
+			}
+			stamp += int64(r.Choose("bstamp", 1000))
+			line := RefWrite(set, pw, salt, stamp)
+			if variant != 2 && len(line) != size {
+				r.Fail("harness/boundary-record", "built %d bytes, wanted %d", len(line), size)
+			}
+			m.PW, m.Set, m.Stamp = pw, set, stamp
+			if variant == 1 {
+				return line + "QUJD" + "\n" + m.Aux, catEither
+			}
+			return line + "\n" + m.Aux, catValid
+		}
+		return c, catValid
+	}},
 }
 
 // FirstLineOnly returns the first line without the newline.
